@@ -121,7 +121,7 @@ const NON_MOVES: [Action; 6] = [
 /// Roots of the exhaustive sequences: (label, FEN, prefix moves, alphabet moves, full
 /// non-move alphabet?).  Roots with a prefix use the reduced non-move alphabet
 /// {offer:w, accept, decline, resign:b} to keep the replayed prefixes affordable.
-const ROOTS: [(&str, &str, &[&str], &[&str], bool); 16] = [
+const ROOTS: [(&str, &str, &[&str], &[&str], bool); 21] = [
     ("start", gen::START_FEN, &[], &["e2e4", "e7e5", "Ng1f3"], true),
     ("mate_w", "6k1/5ppp/8/8/8/8/8/R3K3 w Q - 0 1", &[], &["Ra1a8", "Ke1e2", "O-O-O", "Ra1b2"], true),
     ("mate_b", "r3k3/8/8/8/8/8/5PPP/6K1 b q - 0 1", &[], &["Ra8a1", "Ke8e7", "O-O-O", "Kg1f1"], true),
@@ -155,6 +155,43 @@ const ROOTS: [(&str, &str, &[&str], &[&str], bool); 16] = [
             "Ra1b1", "Ra8b8", "Rb1a1", "Rb8a8", "Ra1b1", "Ra8b8", "Rb1a1", "Rb8a8", "Ra1b1", "Ra8b8", "Rb1a1",
         ],
         &["Rb8a8", "Rb8c8", "O-O"],
+        false,
+    ),
+    // third occurrence exactly when the half-move clock reaches 100 (fifty-move has precedence), and one ply either side
+    (
+        "shuffle_clock92",
+        "8/8/8/p3k3/P7/4K3/8/8 w - - 92 60",
+        &["Ke3d3", "Ke5d5", "Kd3e3", "Kd5e5", "Ke3d3", "Ke5d5", "Kd3e3"],
+        &["Kd5e5", "Kd5c5", "Ke3d3"],
+        false,
+    ),
+    (
+        "shuffle_clock91",
+        "8/8/8/p3k3/P7/4K3/8/8 w - - 91 60",
+        &["Ke3d3", "Ke5d5", "Kd3e3", "Kd5e5", "Ke3d3", "Ke5d5", "Kd3e3"],
+        &["Kd5e5", "Kd5c5", "Ke3d3"],
+        false,
+    ),
+    (
+        "shuffle_clock93_b",
+        "8/8/8/p3k3/P7/4K3/8/8 b - - 93 60",
+        &["Ke5d5", "Ke3d3", "Kd5e5", "Kd3e3", "Ke5d5", "Ke3d3", "Kd5e5"],
+        &["Kd3e3", "Kd3c3", "Ke5d5"],
+        false,
+    ),
+    // a piece (not a pawn) lands on the en-passant square: not a capture
+    (
+        "piece_onto_ep_w",
+        gen::START_FEN,
+        &["Nb1c3", "e7e5", "Nc3b5", "d7d5"],
+        &["Nb5d6", "Nb5c7", "e2e4", "c7c6"],
+        false,
+    ),
+    (
+        "piece_onto_ep_b",
+        gen::START_FEN,
+        &["a2a3", "Nb8c6", "e2e4", "Nc6b4", "d2d4"],
+        &["Nb4d3", "Nb4c2", "e7e5", "c2c3"],
         false,
     ),
     (
@@ -331,6 +368,41 @@ pub fn pgn(tier: usize, seed: u64, out: &mut Out) {
         ("resign_w", &[Action::Resign(Color::White)]),
         ("resign_b", &[Action::Resign(Color::Black)]),
     ];
+    // scripted games first: shapes random play practically never reaches
+    //  * three knights that can all reach one square (file+rank disambiguation `Ng4f6+`), game left open / resigned
+    //  * a game that ends by itself through threefold repetition (declared draw + result token on import)
+    const SCRIPTS: [(&str, &[&str]); 2] = [
+        ("three_knights", &["h2h4", "g7g5", "h4g5", "h7h6", "g5h6", "a7a6", "h6h7", "a6a5", "h7g8=N", "a5a4", "Nb1c3", "b7b6",
+            "Nc3e4", "b6b5", "Ng1f3", "c7c6", "Nf3e5", "c6c5", "Ne5g4", "d7d6", "Ng4f6"]),
+        ("repetition", &["Ng1f3", "Ng8f6", "Nf3g1", "Nf6g8", "Ng1f3", "Ng8f6", "Nf3g1", "Nf6g8"]),
+    ];
+    for (name, script) in SCRIPTS.iter() {
+        for (vname, acts) in endings.iter() {
+            let mut sx = Sx::new(out);
+            if !sx.start(&start) {
+                break;
+            }
+            sx.out.stats.inc(&format!("pgn.script_{name}_{vname}"));
+            for m in script.iter() {
+                match BoardMove::from_str(m) {
+                    Ok(bm) => { sx.act(&Action::MakeMove(bm)); }
+                    Err(_) => { sx.out.stats.inc("pgn.script_bad_move_text"); }
+                }
+            }
+            let ended = sx.finished();
+            if !ended {
+                for a in acts.iter() {
+                    sx.act(a);
+                }
+            }
+            sx.hist();
+            sx.pgn();
+            sx.end();
+            if ended {
+                break;
+            }
+        }
+    }
     for gi in 0..PGN_BASE_GAMES[tier] {
         if !out.room() {
             return;
